@@ -2,6 +2,7 @@ package main
 
 import (
 	"fmt"
+	"strings"
 	"go/constant"
 	"go/types"
 
@@ -56,8 +57,15 @@ func (w *Worker) mut(id int) *Obj {
 	c := *o
 	c.Leaves = append([]Val(nil), o.Leaves...)
 	w.objs[id] = &c
-	if o.Tag != "" && !w.globalWriteOK[o.Tag] {
+	if o.Tag != "" && !w.globalWriteOK[o.Tag] && w.inOnce == 0 && isLibraryGlobal(o.Tag) {
+		// obligation O1 (C19): package-level state is not written after initialisation
 		w.globalWrites = append(w.globalWrites, o.Tag+" in "+w.curFn())
+		key := "global-write:" + o.Tag
+		if !w.inPrefix() && !w.reportedOnce[key] {
+			w.reportedOnce[key] = true
+			w.ensureModel()
+			w.reportViolation("shared-state", "global-write", w.libSite(), "store to package-level variable "+o.Tag+" after initialisation", w.model)
+		}
 	}
 	return &c
 }
@@ -479,4 +487,10 @@ func (w *Worker) constVal(c *ssa.Const) Val {
 		return Opaque{"const:" + c.Value.String()}
 	}
 	panic(engineError{"constVal: unsupported " + c.String()})
+}
+
+// isLibraryGlobal: package-level variables of the library under test and of its non-standard
+// dependencies (sync.Pool internals and math/rand state are modelled, not executed).
+func isLibraryGlobal(tag string) bool {
+	return strings.HasPrefix(tag, "github.com/gobwas/")
 }
